@@ -65,19 +65,58 @@ def replayer(prefix):
 
 
 def model_of(o, names, timeout=30, solvers=("cvc5", "z3")):
-    """Values of the named constants in a counter-model of obligation o (dict name -> python)."""
+    """Values of the named constants in a counter-model of obligation o.
+
+    A requested name matches the declared constant of that name or the first one called
+    `<name>!k` (fresh-name suffixes).  Returns dict requested name -> python value."""
     ts = []
+    req = {}
     for n in names:
-        d = o.decls.funs.get(n)
-        if d is None:
+        cand = [k for k in o.decls.order if k == n] or [k for k in o.decls.order if k.startswith(n + "!")]
+        if not cand:
             continue
-        ts.append(tm.T(d.split()[-1].rstrip(")"), n))
+        d = o.decls.funs[cand[0]]
+        if "() " not in d:
+            continue
+        sort = d[d.index("() ") + 3:-1]
+        ts.append(tm.T(sort, cand[0]))
+        req[cand[0]] = n
+    if not ts:
+        return {}
     text = o.smt(getvals=ts)
     r = solve.run_query(text, timeout, solvers)
     if r.verdict != "sat":
         return None
     vals = solve.parse_values(r.output)
-    return {k: solve.smt_value_to_py(v) for k, v in vals.items()}
+    return {req.get(k, k): solve.smt_value_to_py(v) for k, v in vals.items()}
+
+
+class FileOb:
+    """A lemma given as SMT-LIB text (array encoding).  The assertion after the line `; GOAL` is
+    the negated goal; the cover query drops it."""
+
+    def __init__(self, name, text, meta):
+        self.name, self.text, self.meta = name, text, meta
+        self.result = None
+
+    def smt(self, getvals=()):
+        return self.text
+
+
+def file_lemma(name, relfile, props, solvers=("z3", "cvc5"), note=""):
+    LEMMAS[name] = dict(name=name, file=relfile, props=props, solvers=solvers, timeout=None, expect="unsat",
+                        note=note, fn=None)
+
+
+def run_file_lemma(lm):
+    with open(os.path.join(VERIF, lm["file"])) as fh:
+        text = fh.read()
+    if "; GOAL" not in text:
+        raise ValueError(f"{lm['file']}: no GOAL marker")
+    head, goal = text.split("; GOAL", 1)
+    cover = head + "(check-sat)\n"
+    return [FileOb(lm["name"], text, dict(lemma=True, solvers=lm["solvers"])),
+            FileOb(lm["name"] + "/cover", cover, dict(lemma=True, expect="sat", solvers=lm["solvers"]))]
 
 
 class LemmaOb:
@@ -170,7 +209,7 @@ def run_property(pid: str, tier: str, seed: int) -> int:
     for lm in LEMMAS.values():
         if pid in lm["props"]:
             try:
-                obs = run_lemma(lm)
+                obs = run_file_lemma(lm) if lm.get("file") else run_lemma(lm)
             except Exception as e:  # noqa: BLE001
                 traceback.print_exc()
                 print(f"CHECKER-ERROR: internal error in lemma {lm['name']}: {e!r}")
@@ -256,6 +295,9 @@ def run_property(pid: str, tier: str, seed: int) -> int:
     known_lines = []
     violations = []
     os.makedirs(os.path.join(VERIF, "replay"), exist_ok=True)
+    for old in os.listdir(os.path.join(VERIF, "replay")):
+        if old.startswith(pid + "__"):
+            os.unlink(os.path.join(VERIF, "replay", old))
 
     def match_known(name, detail_text):
         for k in kf:
